@@ -281,3 +281,67 @@ Example c32_ex_retrigger_expires_again :
   | None => False
   end.
 Proof. vm_compute. reflexivity. Qed.
+
+(* ---------------------------------------------------------------- manual triggers *)
+(* "not manually triggered": what `cylc trigger` (TaskPool.queue_or_trigger) does to its target, for
+   EVERY state of the target -- any status it acts on, flagged queued or not, in a queue or not, held,
+   runahead-limited, freshly spawned by the command, queue limit reached or not: the target carries the
+   manual flag, is waiting, keeps its held / runahead flags and expiry time, and is not eligible for
+   expiry at any clock value.  (check_trig compares every real queue_or_trigger call with this
+   function and checks the flag on the real task.) *)
+Theorem c32_trigger_marks_manual_in_every_state :
+  forall limited t,
+    let t' := queue_or_trigger limited t in
+    t_manual t' = true /\ t_status t' = Waiting /\ t_id t' = t_id t /\
+    t_held t' = t_held t /\ t_runahead t' = t_runahead t /\ t_expire t' = t_expire t /\
+    (forall now, eligible now t' = false).
+Proof. exact qot_spec. Qed.
+
+(* From the moment of the command: after a trigger of instance i (in whatever state), over ALL
+   continuations (passes at any clock value, queueing, hold/release, runahead changes, messages,
+   further triggers, spawns, removals, releases), every expiry event of i in the continuation is
+   preceded by a job submission for i (which clears the flag, by design, for retries) or by its
+   removal from the pool *)
+Theorem c32_triggered_exempt_until_submitted :
+  forall st i limited st1 os st2,
+    Good st -> step st (OManual i limited) = Some st1 -> run st1 os = Some st2 ->
+    exists nw, s_log st2 = s_log st1 ++ nw /\
+      forall pre post, nw = pre ++ EvExpired i :: post ->
+        (exists s, In (EvSubmit i s) pre) \/ In (EvRemove i) pre.
+Proof. exact trigger_exempt. Qed.
+
+(* the same for any task that carries the flag (e.g. restored from the database on restart) *)
+Theorem c32_manual_exempt_until_submitted :
+  forall os st st' t,
+    Good st -> run st os = Some st' -> In t (s_pool st) -> t_manual t = true ->
+    exists nw, s_log st' = s_log st ++ nw /\
+      forall pre post, nw = pre ++ EvExpired (t_id t) :: post ->
+        (exists s, In (EvSubmit (t_id t) s) pre) \/ In (EvRemove (t_id t)) pre.
+Proof. exact manual_exempt_until_submitted. Qed.
+
+(* target states: (1) not flagged queued, queue full -> queued behind the limit WITH the flag (the seeded
+   regression lost it here); (2) queue not full -> runs now; (3) already queued -> taken out, runs now;
+   (4) held; (5) runahead-limited; then the clock passes the expiry time: none of them expires *)
+Example c32_ex_trigger_target_states :
+  let fresh := new_task ex_env 1%N in                                  (* just spawned: runahead flag set *)
+  let queued := set_queued (set_runahead false fresh) in
+  let held := set_held true fresh in
+  map (fun t => let t' := queue_or_trigger true t in (t_manual t', t_queued t', t_inq t', t_trig t', eligible 99999 t'))
+      [fresh; queued; held]
+  = [(true, true, true, false, false); (true, false, false, true, false); (true, true, true, false, false)]
+  /\ (let t' := queue_or_trigger false fresh in (t_manual t', t_queued t', t_trig t', t_runahead t', eligible 99999 t'))
+     = (true, false, true, true, false)
+  /\ eligible 99999 (set_runahead false fresh) = true.                  (* untriggered, it would expire *)
+Proof. vm_compute. repeat split. Qed.
+
+(* the seeded-regression scenario in the model: b (instance 1, expiry 3600) is spawned by the trigger
+   command while the queue is full (limited = true), the clock goes to 7200 with b still queued: no expiry;
+   when the queue releases it, it is submitted as a waiting task *)
+Example c32_ex_trigger_queued_behind_limit :
+  match run (mkState [] [] [])
+            [OSpawn ex_env 1%N; OManual 1%N true; ORunahead 1%N false; OPass ex_env 7200;
+             OReleaseSubmit [1%N]; OPass ex_env 7300] with
+  | Some st => s_log st = [EvManual 1%N; EvSubmit 1%N Waiting]
+  | None => False
+  end.
+Proof. vm_compute. reflexivity. Qed.
